@@ -132,6 +132,9 @@ def _type_check_constant_reference(expression, source_file_name, ir, errors):
                     ),
                 ]
             )
+            ir_data_utils.builder(expression).type.opaque.CopyFrom(
+                ir_data.OpaqueType()
+            )
             return
         _type_check_expression(
             referred_object.read_transform, referred_name.module_file, ir, errors
@@ -154,6 +157,7 @@ def _type_check_constant_reference(expression, source_file_name, ir, errors):
                 ),
             ]
         )
+        ir_data_utils.builder(expression).type.opaque.CopyFrom(ir_data.OpaqueType())
     else:
         assert False, "Unexpected constant reference type."
 
